@@ -40,18 +40,18 @@ class MultiSession(Capability, list[CapabilityCode]):
         )
 
     def extract_capability_bytes(self) -> list[bytes]:
-        # can probably be written better
-        rs: list[bytes] = [
-            bytes([0]),
-        ]
-        for v in self:
-            rs.append(bytes([v]))
-        return rs
+        # draft-ietf-idr-bgp-multisession section 3: ONE capability, a flags octet followed by the codes of the
+        # capabilities which identify a session (one value per list entry is one capability on the wire each:
+        # the codes used to go out as a second Multisession capability, and did not survive a decode)
+        return [bytes([0]) + bytes(int(v) for v in self)]
 
     @classmethod
     def unpack_capability(cls, instance: Capability, data: Buffer, capability: CapabilityCode) -> Capability:  # pylint: disable=W0613
         assert isinstance(instance, MultiSession)
         if instance._seen:
             log.debug(lazymsg('capability.multisession.duplicate'), 'parser')
+        else:
+            # flags, then the session identifier capability codes
+            instance.extend(CapabilityCode(code) for code in bytes(data[1:]))
         instance._seen = True
         return instance
